@@ -18,7 +18,7 @@ def groups(lines):
 
 
 def mon_script(script, out_lines, mon_engine):
-    gs, trailing = groups(out_lines)
+    gs, trailing = groups([l for l in out_lines if not l.startswith("OBS ")])
     ops = list(script.lines)
     if len(gs) == len(ops) + 1:
         ops.append("END")          # the group produced by tearing the objects down
